@@ -2,6 +2,7 @@ package compact
 
 import (
 	"context"
+	"encoding/binary"
 	"errors"
 	"fmt"
 	"io"
@@ -313,7 +314,12 @@ func combinePoints(points *encoding.Uint64Map, nss *Namespaces, goroutines int, 
 	}
 	buffers := make([][]byte, goroutines)
 	for i := range buffers {
-		buffers[i] = make([]byte, points.MaxBucketLength())
+		// The combined entry for a point can be longer than everything the
+		// first pass wrote for it: references in the path (or relation) namespace
+		// are written there as value<<1, but here as zigzag(delta)<<1, which
+		// takes one bit, and so possibly one byte, more per reference, and the
+		// two reference lists each gain a length header.
+		buffers[i] = make([]byte, 2*points.MaxBucketLength()+2*binary.MaxVarintLen64)
 	}
 	references := make([]PointReferences, goroutines)
 	for i := range references {
